@@ -10,6 +10,7 @@ Ev(op, d, m, b) == [op |-> op, d |-> d, m |-> m, b |-> b]
 MCNext == /\ n < MaxOps /\ n' = n + 1
           /\ \/ \E d \in Dialogs : Initial(d) /\ hist' = Append(hist, Ev("initial", d, "", ""))
              \/ \E d \in Dialogs, lg \in BOOLEAN : Answer(d, lg) /\ hist' = Append(hist, Ev("answer", d, IF lg THEN "long" ELSE "", ""))
+             \/ \E d \in Dialogs, f \in BOOLEAN : AnswerElsewhere(d, f) /\ hist' = Append(hist, Ev("answer", d, IF f THEN "elsewhere-final" ELSE "elsewhere-prov", ""))
              \/ \E d \in Dialogs : Rejected(d) /\ hist' = Append(hist, Ev("answer", d, "reject", ""))
              \/ \E d \in Dialogs : ByeAnswered(d) /\ hist' = Append(hist, Ev("bye", d, "", ""))
              \/ \E d \in Dialogs : NotifyTerminated(d) /\ hist' = Append(hist, Ev("notify-term", d, "", ""))
@@ -21,6 +22,7 @@ MCNext == /\ n < MaxOps /\ n' = n + 1
 MCSpec == MCInit /\ [][MCNext]_mcvars
 PropView == <<vars, n, ntimeouts>>
 EmitInv == (n = MaxOps) => CSVWrite("%1$s", <<ToJson(hist)>>, IOEnv.OUT)
+Reach_TxAttributed == ~(\E d \in DOMAIN pins : d \notin DOMAIN tx /\ \E i \in DOMAIN hist : hist[i].d = d /\ hist[i].m = "elsewhere-final")
 Reach_LongSurvives == ~(last.origin = "pin" /\ ntimeouts > 0 /\ last.dlg \in long)
 Reach_PinnedAfterRotation == ~(last.origin = "pin" /\ idx # 0)
 =============================================================================
